@@ -21,6 +21,7 @@ class Speller:
         self.r = random.Random(seed)
         self.memo = {}
         self.style = style
+        self.guard = "FILE_H"
 
     def ident(self, w, first=LOW, rest=LOW + string.digits + "_"):
         for _ in range(100):
@@ -73,6 +74,14 @@ class Speller:
             return "'\\" + self.r.choice("nt0\\'\"rabfv") + "'"
         return "'\\x" + "".join(self.r.choice("0123456789abcdef") for _ in range(w - 4)) + "'"
 
+    def text(self, w):
+        words = ["the", "norm", "is", "a", "set", "of", "rules", "todo", "x", "fix", "me", "libft", "42"]
+        out = ""
+        while len(out) < w:
+            out += self.r.choice(words) + " "
+        out = out[:w]
+        return out[:-1] + "x" if out.endswith(" ") else out
+
     def typ(self, w):
         return self.r.choice(TYPES_BY_W.get(w, ["int"]))
 
@@ -83,6 +92,18 @@ class Speller:
         w, n = it["w"], it.get("n", 0)
         if s in ("v", "p", "f", "g", "m", "fld", "tag"):
             return self.named(s, w, n)
+        if s == "guard":
+            return self.guard
+        if s == "txt":
+            return self.text(w)
+        if s in ("stag", "utag", "etag", "tname"):
+            pre = {"stag": "s_", "utag": "u_", "etag": "e_", "tname": "t_"}[s]
+            key = (s, w, n)
+            if key not in self.memo:
+                self.memo[key] = pre + self.ident(max(w - 2, 1))
+            return self.memo[key]
+        if s == "econst":
+            return self.named("m", w, 100 + n)
         if s == "inc":
             return self.ident(w, LOW, LOW + "_")
         if s == "num":
